@@ -538,7 +538,7 @@ def monitor(sc, hsegs):
             for ln in seg:
                 if ln.startswith("peer "):
                     v = ln.split("name=", 1)[1]
-                    names[p] = None if v == "none" else bytes.fromhex(v[1:])
+                    names[p] = None if v == "none" else (b"" if v[1:] in ("", "-") else bytes.fromhex(v[1:]))
             want_name = op[2] if exp else names.get(p) if not got else names.get(p)
             if got != exp:
                 bad("M3", i, "authenticate %r/%r answered %s, expected %s" % (op[2], op[3], got, exp))
